@@ -271,6 +271,10 @@ fn rewrite_list(
 
 fn verdict(md: &Metadata, store: &Store) -> String {
     match guarded(|| {
+        // the store has to be accepted by the loader's validation first
+        if let Err(e) = store.validate(mock_today(), false) {
+            return format!("refused {}", format!("{e:?}").chars().take(160).collect::<String>());
+        }
         let rep = crate::resolver::resolve(md, None, store);
         match &rep.conclusion {
             crate::resolver::Conclusion::Success(_) => "success".to_owned(),
@@ -337,6 +341,12 @@ fn metamorphic(r: &mut Report, rng: &mut Rng, nshards: u64) {
             for l in w2.config.exemptions.values_mut() {
                 for e in l {
                     rw(&mut e.criteria, false, rng);
+                }
+            }
+            // the `implies` lists of the criteria table are criteria lists too
+            for c in w2.audits.criteria.values_mut() {
+                if !c.implies.is_empty() {
+                    rw(&mut c.implies, false, rng);
                 }
             }
             for p in w2.config.policy.package.values_mut() {
